@@ -24,6 +24,7 @@ func init() {
 			{Name: "field-def-at-type-pos", File: "cl/func_type_and_var.go", Old: "\t\t\tfld := types.NewField(name.NamePos, pkg, name.Name, typ, false)\n\t\t\tfields = append(fields, fld)", New: "\t\t\tfld := types.NewField(field.Type.Pos(), pkg, name.Name, typ, false)\n\t\t\tfields = append(fields, fld)", Expect: "def-position/toStructType:name"},
 			{Name: "param-def-at-field-pos", File: "cl/func_type_and_var.go", Old: "\t\tparam := pkg.NewParam(name.Pos(), name.Name, typ)\n\t\targs = append(args, param)", New: "\t\tparam := pkg.NewParam(fld.Type.Pos(), name.Name, typ)\n\t\targs = append(args, param)", Expect: "def-position/toParam:name"},
 			{Name: "use-of-fresh-object", File: "cl/expr.go", Old: "\t\t\trec.Use(name, t.Field(idx))", New: "\t\t\trec.Use(name, types.NewField(name.Pos(), ctx.pkg.Types, name.Name, t.Field(idx).Type(), false))", Expect: "use-elsewhere/compileStructLitInKeyVal:name"},
+			{Name: "pkgname-cached-across-files", File: "cl/compile.go", Old: "\tpkgName := types.NewPkgName(pos, ctx.pkg.Types, name, pkg.Types)\n", New: "\tpkgName, cachedName := pkgNameCache[name]\n\tif !cachedName {\n\t\tpkgName = types.NewPkgName(pos, ctx.pkg.Types, name, pkg.Types)\n\t\tpkgNameCache[name] = pkgName\n\t}\n", Old2: "func loadImport(ctx *blockCtx, spec *ast.ImportSpec) {", New2: "var pkgNameCache = map[string]*types.PkgName{}\n\nfunc loadImport(ctx *blockCtx, spec *ast.ImportSpec) {", Expect: "def-fresh/loadImport:specName"},
 			{Name: "embedded-class-field-at-star", File: "cl/compile.go", Old: "\t\t\t\t\t\t\tfld := types.NewField(name.Pos(), pkg, name.Name, typ, true)", New: "\t\t\t\t\t\t\tfld := types.NewField(spec.Type.Pos(), pkg, name.Name, typ, true)", Expect: "def-position/preloadGopFile:name"},
 		},
 	})
@@ -82,6 +83,10 @@ func runC12(c *core.Check) {
 				return true
 			}
 			nDef++
+			if cached := c12CacheRead(pk, fd, obj); cached != "" {
+				c.Bad("def-fresh", key, call.Pos(), "the object recorded as the definition of `"+idStr+"` can come from the cache `"+cached+"`: an object created for another identifier (another file, an earlier declaration) is then recorded here, so Defs["+idStr+"].Pos() is that other identifier's position")
+				return true
+			}
 			if ctor == nil {
 				c.Note("def-indirect", key, call.Pos(), "the object comes from a lookup or from gogen (created from the identifier elsewhere): its position is not decided here")
 				return true
@@ -172,4 +177,26 @@ func c12PosOf(pk *packages.Package, fd *ast.FuncDecl, pos, id ast.Expr) bool {
 		}
 	}
 	return false
+}
+
+// c12CacheRead: obj is a local one of whose definitions reads a map (a cache lookup).
+func c12CacheRead(pk *packages.Package, fd *ast.FuncDecl, obj ast.Expr) string {
+	info := pk.TypesInfo
+	o := identObj(info, obj)
+	if o == nil {
+		return ""
+	}
+	for _, d := range varDefs(info, fd, o) {
+		if d == nil {
+			continue
+		}
+		if ix, ok := ast.Unparen(d).(*ast.IndexExpr); ok {
+			if t := info.TypeOf(ix.X); t != nil {
+				if _, isMap := t.Underlying().(*types.Map); isMap {
+					return core.ExprStr(ix.X)
+				}
+			}
+		}
+	}
+	return ""
 }
